@@ -161,3 +161,11 @@ func VerifC17DropQueued(l *NDNLPLinkService) (n int) {
 		}
 	}
 }
+
+// VerifC17RunReceive / VerifC17RunSend are the two loops NDNLPLinkService.Run starts with `go`
+// (inert under -gostmt), unmodified. With a transport whose runReceive returns (the socket is
+// closed) runReceive signals `stopped`, and runSend answers that by removing the face from the
+// face table: the link-down teardown path of a face. The harness runs the first in a goroutine of
+// its own and the second synchronously; the unbuffered `stopped` channel is the only coupling.
+func VerifC17RunReceive(l *NDNLPLinkService) { l.runReceive() }
+func VerifC17RunSend(l *NDNLPLinkService)    { l.runSend() }
